@@ -252,5 +252,15 @@ theorem step_refines (s : State) (op : Op) (h : Inv s) :
     exact stepA s v (fun t => t.get i) (fun xs => Spec.get xs i) (by intro t ht; exact AState.get_good t ht i) h
   | afront v => exact stepA s v (fun t => t.front) Spec.front (by intro t ht; exact AState.front_good t ht) h
   | aback v => exact stepA s v (fun t => t.back) Spec.back (by intro t ht; exact AState.back_good t ht) h
+  | aeq v w =>
+    unfold step Spec.step StepOk obsS
+    by_cases hv : v < 2 ∧ w < 2
+    · simp only [hv, and_self, if_true, Option.map_some, absS_getA, Option.some.injEq, Prod.mk.injEq,
+        true_and, forall_eq']
+      refine ⟨?_, h⟩
+      by_cases e : (s.getA v).elems = (s.getA w).elems
+      · simp [e, AState.size_eq]
+      · simp [e]
+    · simp [hv]
 
 end Nstd.Seq
